@@ -12,11 +12,11 @@ CTYPE = {
     'double': 'double', 'cptr': 'const int*', 'E8': 'vf::E8', 'E32': 'vf::E32', 'B3': 'vf::B3', 'B5': 'vf::B5',
     'B12': 'vf::B12', 'B24': 'vf::B24', 'Tracked': 'vf::Tracked', 'TrackedMO': 'vf::TrackedMO',
     'string': 'std::string', 'uptr': 'std::unique_ptr<int>', 'SelfRef': 'vf::SelfRef', 'Handle': 'vf::Handle',
-    'Stamped': 'vf::Stamped', 'Cloned': 'vf::Cloned',
+    'Stamped': 'vf::Stamped', 'Cloned': 'vf::Cloned', 'MvStamped': 'vf::MvStamped', 'CpStamped': 'vf::CpStamped',
 }
 SIZEOF = {'u8': 1, 'i8': 1, 'char': 1, 'byte': 1, 'bool': 1, 'u16': 2, 'u32': 4, 'i32': 4, 'u64': 8, 'sz': 8,
           'float': 4, 'double': 8, 'cptr': 8, 'E8': 1, 'E32': 4, 'B3': 3, 'B5': 5, 'B12': 12, 'B24': 24,
-          'Tracked': 16, 'TrackedMO': 16, 'string': 32, 'uptr': 8, 'SelfRef': 16, 'Handle': 8, 'Stamped': 8, 'Cloned': 8}
+          'Tracked': 16, 'TrackedMO': 16, 'string': 32, 'uptr': 8, 'SelfRef': 16, 'Handle': 8, 'Stamped': 8, 'Cloned': 8, 'MvStamped': 8, 'CpStamped': 8}
 TRIVIAL = {'u8', 'i8', 'char', 'byte', 'bool', 'u16', 'u32', 'i32', 'u64', 'sz', 'float', 'double', 'cptr', 'E8',
            'E32', 'B3', 'B5', 'B12', 'B24', 'Handle'}
 MOVE_ONLY = {'TrackedMO', 'uptr', 'Handle'}
@@ -181,6 +181,11 @@ def core_pool():
     c.append(make([p('i32'), p('Stamped'), f('Stamped')], tags={'nontrivial', 'stamped'}))
     c.append(make([f('Stamped'), p('u32'), p('Stamped'), p('u8')], tags={'nontrivial', 'stamped'}))
     c.append(make([p('Stamped', 8), p('u8'), v('u16'), f('Stamped')], tags={'nontrivial', 'stamped', 'layout', 'alignedfirst'}))
+    # trivial copy assignment with a user-provided move assignment, and the reverse: the bytewise-assignable runs of
+    # copy and of move assignment differ (next to trivially assignable neighbours, so that a run exists either way)
+    c.append(make([p('u32'), p('MvStamped'), p('u16'), f('MvStamped')], tags={'nontrivial', 'stamped', 'asym'}))
+    c.append(make([f('CpStamped'), p('u32'), p('CpStamped'), p('u8')], tags={'nontrivial', 'stamped', 'asym'}))
+    c.append(make([p('MvStamped'), p('CpStamped'), p('u8'), v('u16')], tags={'nontrivial', 'stamped', 'asym'}))
     # user-provided copy constructor, trivial move constructor and destructor
     c.append(make([p('Cloned'), p('u8')], tags={'nontrivial', 'cloned', 'plain'}))
     c.append(make([f('Cloned'), p('u32'), f('u8')], tags={'nontrivial', 'cloned'}))
